@@ -7,21 +7,21 @@ from vlib import ToolError, Result, log
 # driver lists per property (the drivers scale with the tier themselves)
 PLAN = {
     "C01": {"models": ["pipeline"], "drivers": ["small", "adversarial", "char-classes", "front:hist", "fallbacks"], "thorough_drivers": ["icase-sweep"]},
-    "C02": {"models": ["pipeline", "lang", "tlaps-lang"], "drivers": ["small-default", "near-miss", "char-classes"]},
+    "C02": {"models": ["pipeline", "lang", "tlaps-lang"], "drivers": ["small-default", "near-miss", "char-classes", "big"]},
     "C03": {"drivers": ["classes", "fallbacks", "front:hist"], "models": ["class"]},
     "C04": {"drivers": ["icase-words", "icase-sweep", "front:hist"], "models": ["fold"]},
-    "C05": {"drivers": ["small-rep", "repeats", "fallbacks", "front:hist"], "models": ["rep", "repconv"]},
+    "C05": {"drivers": ["small-rep", "repeats", "fallbacks", "front:hist", "big"], "models": ["rep", "repconv"]},
     "C06": {"drivers": ["presentation", "char-classes", "front:hist", "fallbacks"], "models": ["lang", "verbose", "print"]},
     "C07": {"drivers": ["lattice", "char-classes", "front:hist", "front:large"], "models": ["builder-rust", "apalache-builder"]},
     "C08": {"models": ["pipeline"], "drivers": ["small-anchors", "anchors", "fallbacks", "front:hist"]},
     "C09": {"drivers": ["class-sweep"], "models": ["class"]},
-    "C10": {"drivers": ["orders", "front:hist"], "models": ["builder-rust"]},
+    "C10": {"drivers": ["orders", "front:hist", "big"], "models": ["builder-rust"]},
     "C11": {"drivers": ["escape-words", "front:escsweep", "fallbacks", "front:hist"], "models": ["front-laws"]},
     "C12": {"drivers": ["front:cli"], "models": ["front-laws"]},
     "C13": {"drivers": ["thresholds", "front:hist"], "models": ["rep", "repconv"]},
     "C14": {"drivers": ["front:py"], "models": ["builder-py", "front-laws"]},
     "C15": {"drivers": ["color"], "models": ["front-laws", "print"]},
-    "C16": {"models": ["pipeline", "rep"], "drivers": ["small", "stages", "fallbacks"]},
+    "C16": {"models": ["pipeline", "rep", "segment"], "drivers": ["small", "stages", "fallbacks", "big", "segments", "char-classes"]},
     "C17": {"drivers": ["front:wasm"], "models": ["builder-wasm"]},
 }
 
@@ -428,6 +428,22 @@ def model_verbose(res, known, tier, seed):
                        "invariants": ["Exact", "RawIsWrong"], "negative_control": "Mode=widen refuted by TLC"})
 
 
+def model_segment(res, known, tier, seed):
+    """MC_Segment: the S3 rule over all attribute words; the rule before the D3 repair must be refuted."""
+    consts = {"MaxLen": 5 if tier == "thorough" else 4, "Rule": '"fixed"'}
+    inv = ["Tiles", "NoMerge", "Alone", "KeepWhole"]
+    m = vlib.run_model("Segment", constants=consts, invariants=inv, tag="segment_fixed", workers=4)
+    if m["violated"]:
+        raise ToolError("bounded model segment_fixed violates %s" % m["violated"])
+    neg = vlib.run_model("Segment", constants={"MaxLen": 3, "Rule": '"old"'}, invariants=["Alone"], tag="segment_old", workers=2)
+    if "Alone" not in neg["violated"]:
+        raise ToolError("negative control: the pre-repair segmentation rule was not refuted by TLC")
+    res.states += m["states"] + neg["states"]
+    res.transitions += m["transitions"] + neg["transitions"]
+    res.models.append({"model": "MC_Segment", "constants": consts, "states": m["states"], "transitions": m["transitions"],
+                       "invariants": inv, "negative_control": "Rule=old (split on a backslash only in two-character clusters) refuted by TLC"})
+
+
 def model_print(res, known, tier, seed):
     """MC_Print: the complete printer (verbose layout, capturing groups, colour) on the Level-2 pipeline."""
     consts = {"MaxLen": 3, "MaxSize": 3 if tier == "thorough" else 2}
@@ -485,7 +501,7 @@ def model_tlaps_lang(res, known, tier, seed):
                        "theorems": ["UnitRight", "UnitLeft", "EqualImpliesEqualModEps", "ModEpsTransitive", "ModEpsPlusEpsIsEqual"]})
 
 
-MODELS = {"tlaps-lang": model_tlaps_lang, "apalache-builder": model_apalache_builder, "print": model_print, "verbose": model_verbose, "repconv": model_repconv, "lang": model_lang, "fold": model_fold, "front-laws": model_front_laws, "class": model_class, "rep": model_rep, "pipeline": model_pipeline, "builder-rust": model_builder("rust"), "builder-py": model_builder("py"),
+MODELS = {"segment": model_segment, "tlaps-lang": model_tlaps_lang, "apalache-builder": model_apalache_builder, "print": model_print, "verbose": model_verbose, "repconv": model_repconv, "lang": model_lang, "fold": model_fold, "front-laws": model_front_laws, "class": model_class, "rep": model_rep, "pipeline": model_pipeline, "builder-rust": model_builder("rust"), "builder-py": model_builder("py"),
           "builder-wasm": model_builder("wasm")}
 
 
